@@ -175,6 +175,8 @@ pub struct Buffer {
 
     pub sixel_threads: VecDeque<std::thread::JoinHandle<EngineResult<Sixel>>>, // pub undo_stack: Vec<Box<dyn UndoOperation>>,
                                                                                // pub redo_stack: Vec<Box<dyn UndoOperation>>,
+    /// The first n decodes in `sixel_threads` were stopped, their images are thrown away.
+    stopped_sixel_threads: usize,
 }
 
 impl std::fmt::Debug for Buffer {
@@ -400,6 +402,7 @@ impl Buffer {
             overlay_layer: None,
             layers: vec![Layer::new(fl!(crate::LANGUAGE_LOADER, "layer-background-name"), size)],
             sixel_threads: VecDeque::new(), // file_name_changed: Box::new(|| {}),
+            stopped_sixel_threads: 0,
         }
     }
 
@@ -425,6 +428,11 @@ impl Buffer {
             let Some(handle) = self.sixel_threads.pop_front() else {
                 continue;
             };
+            if self.stopped_sixel_threads > 0 {
+                self.stopped_sixel_threads -= 1;
+                let _ = handle.join();
+                continue;
+            }
             let Ok(result) = handle.join() else {
                 continue;
             };
@@ -579,7 +587,10 @@ impl Buffer {
     ///
     /// Panics if .
     pub fn stop_sixel_threads(&mut self) {
-        self.sixel_threads.clear();
+        // dropping the handle of a running decode does not stop it but detaches it: the decodes stay in the queue
+        // (where the parser counts them) until they are finished, the finished ones are thrown away right here
+        self.stopped_sixel_threads = self.sixel_threads.len();
+        let _ = self.collect_sixel_threads(usize::MAX);
     }
 
     /// terminal buffers have a viewport on the bottom of the buffer
